@@ -107,11 +107,22 @@ def window_terms(w, v, i):
 
 
 def domain_ok(w, v, fb=True):
-    """property's domain: odd window, non-negative weights, signal at least as long as the window, and every
-    window keeps a positive total weight on its valid samples"""
-    if len(w) % 2 == 0 or len(v) < len(w) or any(x < 0 for x in w):
+    """property's domain: odd window, non-negative weights, and every window keeps a positive total weight on its
+    valid samples. The length of the signal is NOT part of it: the statement defines every output for a track shorter
+    than the window as well (a window that overhangs both ends is renormalised over the samples inside the track; when
+    boundaries are not filtered every index of such a track lies in the first or last half window and is returned
+    unchanged)"""
+    if len(w) % 2 == 0 or any(x < 0 for x in w):
         return False
     return all(sum(t[0] for t in window_terms(w, v, i)) > 0 for i in range(len(v)))
+
+
+def index_zone(w, fb, n):
+    """a track shorter than the HALF window whose boundaries are copied: the boundary loops of Filter.execute read
+    input[i] for i in range(D) and raise IndexError (Model: Err.index; theorem short_track_index_error). The property
+    quantifies over signals at least as long as the window, so the refusal is not judged; an output, if one is
+    returned, is (it must be the input unchanged)"""
+    return (not fb) and 0 < n < len(w) // 2
 
 
 def mean_oracle(w, v, fb):
@@ -211,6 +222,13 @@ class P(Prop):
         (M, "TV.C15.session_independent", "calls made one after the other in one process give what each gives alone and leave FILTER_X..FILTER_XYZ and Kernel.__filter_boundary as they were"),
         (M, "TV.C15.smooth_is_mean", "Track.smooth(width) = filter_seq(GaussianKernel(width)) on x,y,z with boundaries copied: each coordinate becomes its mean signal, features untouched"),
         (M, "TV.C15.dirac_identity", "the Dirac kernel ([0,1,0]) returns a NaN-free signal unchanged"),
+        (M, "TV.C15.inDomain_of_centre_weight", "non-negative weights with a positive centre weight on a NaN-free signal are in the domain: any length when boundaries are filtered, from the half window on when they are copied"),
+        (M, "TV.C15.short_track_filtered", "boundaries filtered, any track length (shorter than the window included): every output is the renormalised mean of its window, between two of its samples; on a track of at most D+1 points every window holds the whole track"),
+        (M, "TV.C15.short_track_unchanged", "boundaries copied, D <= size < N: the input is returned unchanged (NaN included)"),
+        (M, "TV.C15.short_track_index_error", "boundaries copied, size < D, no zero norm: the boundary copy raises IndexError (no value is returned)"),
+        (M, "TV.C15.execute_short_track", "Filter.execute as a whole (list / Kernel object / Dirac) on a short track with copied boundaries: unchanged for D <= size < N, IndexError for size < D"),
+        (M, "TV.C15.smooth_short_track", "Track.smooth on a track shorter than the Gaussian window but with at least D points: coordinates and features unchanged"),
+        (M, "TV.C15.smooth_too_short_fails", "Track.smooth on a track of fewer than D = int(3*width) points raises IndexError at the first coordinate; module-level state untouched"),
         (M, "TV.C15.zero_norm_fails", "outside the domain (a zero norm) the method fails with a division by zero for a Kernel object, never a wrong value"),
     ]
     partial = []
@@ -288,6 +306,12 @@ class P(Prop):
     BOUNDARY_WIDTHS = {"uniform": [0.5, 0.75, 1], "triangular": [0.75, 1, 1.5], "epanechnikov": [0.75, 1, 1.5],
                        "gaussian": [0.5, 0.75, 1], "exponential": [0.5, 0.75, 1], "cubic": [1, 1.5, 2], "spheric": [1, 1.5, 2]}
     USER_ALPHABET = [["i", 0], ["i", 1], ["f", 0.5], ["f", 0.0], ["F", 0.25]]
+    # one or two sizes of every kernel class, for the enumeration of track lengths around the half window and the window
+    LENGTH_KERNELS = [{"t": "list", "w": [1, 2, 1]}, {"t": "list", "w": [1, 2, 3, 4, 5]}, {"t": "list", "w": [1] * 7},
+                      {"t": "dirac"}, {"t": "uniform", "p": 1}, {"t": "uniform", "p": 2}, {"t": "triangular", "p": 2},
+                      {"t": "epanechnikov", "p": 2}, {"t": "gaussian", "p": 1}, {"t": "gaussian", "p": 2}, {"t": "exponential", "p": 1},
+                      {"t": "cubic", "p": 3}, {"t": "spheric", "p": 3}, {"t": "user", "tbl": [["f", 0.5], ["f", 0.25]], "s": 2.5},
+                      {"t": "userfn", "shape": "tent", "p": 2, "s": 3}]
 
     def exhaustive_scopes(self, tier):
         m = 7 if tier == "thorough" else 6
@@ -413,6 +437,10 @@ class P(Prop):
         k = self.rand_kernel(rng, allow_int=True)
         w = shape_weights(k)
         n = max(1, len(w)) + rng.choice([0, 1, 2, rng.randrange(0, 10)])
+        if len(w) >= 3 and rng.random() < 0.15:
+            n = rng.randrange(1, len(w))          # a track shorter than the window
+            if "fb" in k and rng.random() < 0.4:
+                k["fb"] = True
         sc = self.pick_scalar(rng, k)
         empty = session and rng.random() < 0.08
         if empty:
@@ -450,12 +478,29 @@ class P(Prop):
         quick = tier == "quick"
         # ---- enumerated small scope
         m = 6 if quick else 7
-        for n in range(3, m + 1):
+        for n in range(1, m + 1):
             for v in itertools.product([0, 1, None], repeat=n):
                 v = list(v)
                 for k in ({"t": "list", "w": [1, 2, 5]}, {"t": "uniform", "p": 1, "fb": True}, {"t": "uniform", "p": 1, "fb": False}):
-                    if domain_ok(shape_weights(k), v):
-                        out.append({"kind": "feat", "sig": v, "k": k, "sc": "r"})
+                    w = shape_weights(k)
+                    if domain_ok(w, v):
+                        out.append({"kind": "feat" if n >= len(w) else "short", "sig": v, "k": k, "sc": "r"})
+        # ---- every kernel class x boundary flag x track lengths around the half window D and the window N = 2D+1
+        #      (shorter than the half window, between the half window and the window, equal, just longer)
+        for k0 in self.LENGTH_KERNELS:
+            for fb in ((None,) if k0["t"] == "list" else (True, False, None)):
+                k = dict(k0) if fb is None and k0["t"] == "list" else dict(k0, fb=fb)
+                N = len(shape_weights(k))
+                D = N // 2
+                sc = "f" if k["t"] in TABLE_KERNELS + ("userfn",) else "r"
+                for n in sorted({1, 2, D - 1, D, D + 1, N - 2, N - 1, N, N + 1, N + 2}):
+                    if n < 1:
+                        continue
+                    sigs = [[3 * i - 4 for i in range(n)], [8 if i == n // 2 else 0 for i in range(n)]]
+                    if n >= 3:
+                        sigs.append([None if i == 1 else (i * i) % 7 for i in range(n)])
+                    for v in sigs:
+                        out.append({"kind": "feat" if n >= N else "short", "sig": v, "k": k, "sc": sc})
         # ---- sliding windows of every built-in kernel, boundary sizes included
         for t in OBJ_KERNELS:
             if t == "dirac":
@@ -512,6 +557,8 @@ class P(Prop):
         for _ in range(150 if quick else 2000):
             wd = rng.choice([1, 1, 2, 1.5, 3, 0.5, 0.75])
             n = 2 * int(3 * wd) + 1 + rng.randrange(0, 8)
+            if rng.random() < 0.15:
+                n = rng.randrange(1, 2 * int(3 * wd) + 1)      # shorter than the Gaussian window
             out.append({"kind": "smooth", "x": self.rand_signal(rng, n, nan=False, floats=True), "y": self.rand_signal(rng, n, nan=(rng.random() < 0.3), floats=True),
                         "z": self.rand_signal(rng, n, nan=False, floats=True), "w": wd, "sc": "f"})
         # ---- sessions: several calls in one process, module-level state read after every call
@@ -525,6 +572,8 @@ class P(Prop):
                 elif r < 0.9:
                     wd = rng.choice([1, 1, 2, 1.5, 0.5])
                     n = 0 if rng.random() < 0.08 else 2 * int(3 * wd) + 1 + rng.randrange(0, 6)
+                    if n and rng.random() < 0.15:
+                        n = rng.randrange(1, 2 * int(3 * wd) + 1)
                     st = {"api": "smooth", "w": wd, "x": self.rand_signal(rng, n, nan=False, floats=True),
                           "y": self.rand_signal(rng, n, nan=(rng.random() < 0.3), floats=True), "z": self.rand_signal(rng, n, nan=False, floats=True)}
                     if n and rng.random() < 0.3:
@@ -574,14 +623,17 @@ class P(Prop):
                 v[i] = None
             if not domain_ok([Fraction(x) for x in w], v):
                 out.append({"kind": "zeronorm", "sig": v, "k": {"t": "list", "w": w}, "sc": "r"})
-        # ---- outside the quantifier: signals shorter than the window (correspondence only; IndexError when the
-        #      track is shorter than the half window and boundaries are copied)
+        # ---- signals shorter than the window: the window overhangs both ends at once. Judged like any other signal
+        #      (renormalised mean when boundaries are filtered, input unchanged when they are copied); IndexError when
+        #      the track is shorter than the half window and boundaries are copied (not judged, see index_zone)
         made = 0
-        while made < (300 if quick else 3000):
+        while made < (500 if quick else 5000):
             k = self.rand_kernel(rng)
             N = len(shape_weights(k))
             if N < 3:
                 continue
+            if "fb" in k and rng.random() < 0.4:
+                k["fb"] = True
             n = rng.randrange(1, N)
             sc = self.pick_scalar(rng, k)
             out.append({"kind": "short", "sig": self.rand_signal(rng, n, nan=(rng.random() < 0.3), floats=(sc == "f")), "k": k, "sc": sc})
@@ -605,6 +657,10 @@ class P(Prop):
             k = self.rand_kernel(rng)
             sc = self.pick_scalar(rng, k)
             n = max(n, len(shape_weights(k)))
+            if n >= 3 and rng.random() < 0.15:
+                n = rng.randrange(1, len(shape_weights(k))) if len(shape_weights(k)) >= 3 else n
+                if "fb" in k and rng.random() < 0.4:
+                    k["fb"] = True
         sigs = {nm: self.rand_signal(rng, n, nan=False, floats=(sc == "f")) for nm in ("x", "y", "z")}
         feats = {"a": self.rand_signal(rng, n, floats=(sc == "f")), "c": self.rand_signal(rng, n, floats=(sc == "f"))}
         if featk:
@@ -696,7 +752,8 @@ class P(Prop):
         sig = case.get("sig") or case.get("y")
         if sig is not None and k["t"] != "feat":
             t["nan"] = any(x is None for x in sig)
-            t["slack"] = min(3, len(sig) - len(shape_weights(k))) if kind != "smooth" else "-"
+            N = len(shape_weights(k if kind != "smooth" else {"t": "gaussian", "p": case["w"]}))
+            t["slack"] = min(3, len(sig) - N) if len(sig) >= N else ("shorter-than-half-window" if len(sig) < N // 2 else "shorter-than-window")
         if k["t"] == "list":
             t["window"] = len(k["w"])
             t["asymmetric"] = k["w"] != k["w"][::-1]
@@ -709,7 +766,7 @@ class P(Prop):
         kind = case["kind"]
         if kind == "sw":
             return True
-        if kind in ("zeronorm", "short", "badk"):
+        if kind in ("zeronorm", "badk"):
             return False
         if kind == "session":
             return sum(1 for st in case["steps"] if st["api"] != "freq") >= 2
@@ -718,7 +775,7 @@ class P(Prop):
             return len(w) >= 3
         if len(self.kweights(case)) < 3:
             return False
-        sigs = [case["sig"]] if kind in ("feat", "zerow") else [case["x"], case["y"], case["z"]]
+        sigs = [case["sig"]] if kind in ("feat", "zerow", "short") else [case["x"], case["y"], case["z"]]
         return any(len(set(x for x in s if x is not None)) > 1 for s in sigs)
 
     # ---------------------------------------------------------------- implementation
@@ -1161,8 +1218,8 @@ class P(Prop):
 
     def spec(self, case, out):
         kind = case["kind"]
-        if kind in ("zeronorm", "short", "badk"):
-            return None  # outside the domain of the property (a window without valid weight / a signal shorter than the window / a refused call)
+        if kind in ("zeronorm", "badk"):
+            return None  # outside the domain of the property (a window without valid weight / a refused call)
         if kind == "session":
             if "steps" not in out:
                 return "the session raised %s (%s)" % (out.get("err"), out.get("detail", ""))
@@ -1179,10 +1236,12 @@ class P(Prop):
             return self.judge_error(case, out)
         if kind == "sw":
             return check_window(out["window"])
-        if kind in ("feat", "zerow"):
+        if kind in ("feat", "zerow", "short"):
             w, fb, bad = self.weights_for(case["k"], out)
             if bad:
                 return bad
+            if kind == "short" and not domain_ok(w, case["sig"]):
+                return None      # a window without valid weight (or a negative weight): outside the domain
             if out["input_after"] != [canon(num(a)) for a in case["sig"]]:
                 return "the input feature was modified: %r" % out["input_after"]
             return check_signal(w, case["sig"], fb, out["out"], "feature", skip_undefined=(kind == "zerow"))
@@ -1203,30 +1262,57 @@ class P(Prop):
             return None
         return self.spec_seq(dict(case, api="smooth" if kind == "smooth" else "seq"), out)
 
+    # the IndexError of the boundary copy on a track shorter than the half window (index_zone) is outside the property's
+    # quantifier ("signals of length at least the window length") and is not judged; set to True to judge it as a
+    # failure of "the first and last half-window values are returned unchanged" (class short-track-boundary-copy-indexerror)
+    JUDGE_SHORT_INDEXERROR = False
+
+    def case_signals(self, case):
+        kind = case["kind"]
+        if kind in ("feat", "short", "zerow", "zeronorm"):
+            return [case["sig"]]
+        allsig = dict({"x": case["x"], "y": case["y"], "z": case["z"]}, **case.get("feats", {}))
+        if kind == "op":
+            return [allsig[case["in"]]]
+        dims = ["x", "y", "z"] if kind == "smooth" else case.get("dims", ["x", "y", "z"])
+        return [allsig[d] for d in dims if d in allsig]
+
     def judge_error(self, case, out):
-        """an exception inside the property's domain is a failure; a ZeroDivisionError is outside the domain when,
-        with the sliding window the implementation itself exposes (well shaped), some window has no valid weight"""
+        """an exception inside the property's domain is a failure. Outside it: a ZeroDivisionError when, with the sliding
+        window the implementation itself exposes (well shaped), some window has no valid weight; an IndexError when the
+        boundaries are copied on a track shorter than the half window (see index_zone)"""
         msg = "raised %s (%s)" % (out["err"], out.get("detail", ""))
+        kind = case["kind"]
         k = case.get("k", {"t": "gaussian", "p": case.get("w"), "fb": None})
-        if case["kind"] == "zerow" and out["err"] == "err:zerodiv":
+        if kind == "zerow" and out["err"] == "err:zerodiv":
             return None      # some window has no valid weight: outside the domain, the call may fail
-        if case["kind"] == "sw" or out["err"] != "err:zerodiv" or k["t"] in ("list", "int", "feat"):
+        if kind == "sw" or out["err"] not in ("err:zerodiv", "err:index"):
             return msg
-        win = out.get("window")
-        if check_window(win) or any(x < 0 for x in win):
-            return msg
-        w = [Fraction(x) for x in win]
-        if case["kind"] in ("feat",):
-            sigs = [case["sig"]]
-        elif case["kind"] == "op":
-            sigs = [dict({"x": case["x"], "y": case["y"], "z": case["z"]}, **case["feats"])[case["in"]]]
+        if k["t"] in ("list", "int", "feat"):
+            w, fb = self.kweights(case), False
         else:
-            sigs = [dict({"x": case["x"], "y": case["y"], "z": case["z"]}, **case.get("feats", {}))[d] for d in case.get("dims", ["x", "y", "z"])]
+            win = out.get("window")
+            if check_window(win) or any(x < 0 for x in win):
+                return msg
+            w, fb = [Fraction(x) for x in win], bool(k.get("fb"))
+        sigs = self.case_signals(case)
+        if kind == "short" and not domain_ok(w, sigs[0]):
+            return None      # a window without valid weight: outside the domain
+        if out["err"] == "err:index":
+            if sigs and all(index_zone(w, fb, len(v)) for v in sigs):
+                if self.JUDGE_SHORT_INDEXERROR:
+                    return msg + ": boundaries are not filtered, so every value of a track shorter than the half window was to be returned unchanged"
+                return None
+            return msg
+        if k["t"] in ("list", "int", "feat"):
+            return msg
         if any(not domain_ok(w, v) for v in sigs):
             return None
         return msg
 
     def classify(self, case, impl_out, msg):
+        if self.JUDGE_SHORT_INDEXERROR and isinstance(impl_out, dict) and impl_out.get("err") == "err:index" and "shorter than the half window" in (msg or ""):
+            return "short-track-boundary-copy-indexerror"
         return None
 
     # ---------------------------------------------------------------- shrinking / search
@@ -1276,7 +1362,7 @@ class P(Prop):
         names = self._sig_names(case)
         n = len(case[names[0]])
         # drop one position of every signal
-        if n > N:
+        if n > N or (n > 1 and n < N):
             for i in range(n):
                 c = dict(case)
                 for nm in names:
